@@ -202,6 +202,26 @@ def onEvent (w : W) (j : Judge) (p i : Nat) (st : PState) (expected : Bool) : Ju
   if st.isStopped then { j4 with stops := j4.stops.filter (fun r => !(r.1 == p && r.2.1 == i)),
                                  stopSet := j4.stopSet.filter (· != p) } else j4
 
+/-- instance `i` has just been lost (`w`: the world after the loss).  C03 / C10: every start request outstanding on it is
+    given up (host lost) - with a required process and ABORT / STOP nothing further may be requested for that start -, the
+    process is reported FATAL; every stop request outstanding on it is abandoned and the process is no longer listed there. -/
+def onLose (w : W) (j : Judge) (i : Nat) : Judge × List String :=
+  let lostReqs := j.reqs.filter (fun r => r.i == i)
+  let j1 := lostReqs.foldl (fun (j : Judge) r =>
+    let c := pc w r.p
+    match findRun j r.run with
+    | some run =>
+      if c.required && (c.sfail == .abort || c.sfail == .stop)
+      then setRun j { run with aborted := some (run.aborted.getD ("abort(host-lost)", c.startSeq)) } else j
+    | none => j) j
+  let v1 := (lostReqs.filter (fun r => !r.orphaned)).flatMap (fun r =>
+    if displayed (pr w r.p) == .fatal then [] else [s!"C10-lost-start-not-reported-fatal:{r.p}>{i}"])
+  let lostStops := j.stops.filter (fun r => r.2.1 == i)
+  let v2 := lostStops.flatMap (fun r =>
+    if (pr w r.1).running.contains i then [s!"C10-lost-stop-still-listed:{r.1}>{i}"] else [])
+  ({ j1 with reqs := j1.reqs.filter (fun r => r.i != i), stops := j1.stops.filter (fun r => r.2.1 != i),
+             givenUp := j1.givenUp ++ lostStops.map (·.1) }, v1 ++ v2)
+
 /-- C10: at a periodic check, every outstanding request whose deadline has passed must be given up in that check
     (forced FATAL / STOPPED emitted for the process). `emitted`: the requests of this check. -/
 def onCheck (w : W) (j : Judge) (emitted : List Req) : List String :=
